@@ -85,10 +85,51 @@ def recheck(a):
     return 0
 
 
+def recheck_all():
+    """tools/seeded.py --recheck-all: every filed change whose patch still applies to the current /repo
+    is run again against the checks that caught it; prints one line per change and a tally. Changes
+    whose code has since been rewritten by a fix no longer apply and are reported as such."""
+    import glob
+    tally = {"caught": 0, "missed": 0, "stale": 0}
+    for mf in sorted(glob.glob("/verif/seeded/*/meta.json")):
+        d = os.path.dirname(mf)
+        name = os.path.basename(d)
+        meta = json.load(open(mf))
+        patch = os.path.join(d, "patch.diff")
+        rc, o = run(["git", "apply", "--check", patch], "/repo")
+        if rc != 0:
+            tally["stale"] += 1
+            print(f"stale   {name} (patch no longer applies)")
+            continue
+        checks = meta.get("caught_by") or [meta["property"]]
+        caught = run_checks(patch, checks[:1])
+        if caught is None:
+            print(f"error   {name}")
+            continue
+        hit = [c for c, v in caught.items() if v["exit"] == 1]
+        if hit:
+            tally["caught"] += 1
+            print(f"caught  {name} by {hit[0]} :: {caught[hit[0]]['violations'][:1]}")
+        else:
+            # one more try with every check that caught it originally
+            caught = run_checks(patch, checks)
+            hit = [c for c, v in (caught or {}).items() if v["exit"] == 1]
+            if hit:
+                tally["caught"] += 1
+                print(f"caught  {name} by {hit[0]}")
+            else:
+                tally["missed"] += 1
+                print(f"MISSED  {name} (checks {checks})")
+    print(tally)
+    return 0 if tally["missed"] == 0 else 1
+
+
 def main():
     a = sys.argv[1:]
     if a and a[0] == "--recheck":
         return recheck(a[1:])
+    if a and a[0] == "--recheck-all":
+        return recheck_all()
     prop, name, out, wt = a[0], a[1], a[2], a[3]
     checks = [prop]
     needs = ""
